@@ -161,6 +161,7 @@ func checkC01(p *Prog, r *Result, tier string) {
 	r.Rule("C01.R4", "error discipline: no error returned by a storage, codec or package call is dropped (unused result, defer/go of an error-returning call); enumerated exceptions carry a reason", 40)
 	r.Rule("C01.R5", "one membership source, one writer: the uuid<->id maps and the id counter are written only by methods of the object index type, and every function that writes one map writes the other", 3)
 	r.Rule("C01.R8", "the bulk delete goes through the whole iterator: the loop that drains the iterator and deletes what it yields compares the iterator's error with the end-of-iteration sentinel inside the loop (== / != / errors.Is) whenever a nil test of that error can leave the loop, so that an object that cannot be read any more does not end the deletion", 1)
+	r.Rule("C01.R9", "files hold accepted content only: an API entry that writes object files but accepts nothing (Flush, FlushAndCommit, FlushAll*, Close, Create, Repair, the background flusher) never encodes the object its caller passed; what it writes comes from the pending store", 1)
 	r.Rule("C01.R6", "UUID assignment: Initialize is called on the write path only under the branch where UUID() is empty, with a value drawn from uuid.NewRandom", 1)
 	r.NotDecided = []string{"that field values read equal field values written (JSON round trip, reflection in fieldByName)", "that iteration visits every key at run time", "uniqueness of random UUIDs"}
 	r.Assumptions = []string{"schema-table stability within one locked call", "call-level effects (CALL.unindex, CALL.del) stand for primitives that the callee guards by a presence test on its own map"}
@@ -511,6 +512,7 @@ func checkErrorDiscipline(p *Prog, r *Result, rule string) {
 	}
 	checkIteratorErrors(p, r)
 	checkBulkDeleteLoop(p, c, r, "C01.R8")
+	checkFilesFromAcceptedContent(p, c, r, "C01.R9")
 	// premise of the Create exception: Schema.initialize returns only the nil constant
 	if f := p.FuncByName("Schema.initialize"); f != nil {
 		allNil := true
